@@ -897,7 +897,14 @@ impl CKBProtocolHandler for Synchronizer {
             Ok(msg) => {
                 let item = msg.to_enum();
                 if let packed::SyncMessageUnionReader::SendBlock(ref reader) = item {
-                    if reader.has_extra_fields() || reader.block().count_extra_fields() > 1 {
+                    // the only extra field allowed is a well-formed extension, i.e. the block
+                    // has to be a valid `BlockV1`
+                    if reader.has_extra_fields()
+                        || reader.block().count_extra_fields() > 1
+                        || (reader.block().count_extra_fields() == 1
+                            && packed::BlockV1Reader::verify(reader.block().as_slice(), false)
+                                .is_err())
+                    {
                         info!(
                             "A malformed message from peer {}: \
                              excessive fields detected in SendBlock",
